@@ -340,9 +340,18 @@ class Sim(Layout):
             start = self.ev(n.args[0], env, fi) if n.args else 0
             if isinstance(start, int):
                 return Obj("itertools.count", {"pos": start})
+        if isinstance(f, ast.Name) and f.id == "iter" and len(n.args) == 1 and "iter" not in env:
+            v = self.ev(n.args[0], env, fi)
+            if isinstance(v, Obj) and v.name == "iterator":
+                return v
+            return Obj("iterator", {"seq": list(v) if isinstance(v, (list, tuple, range)) else self.iterable(v, n), "pos": 0})
         if fname == "islice" and len(n.args) == 2:
             it = self.ev(n.args[0], env, fi)
             k = self.ev(n.args[1], env, fi)
+            if isinstance(it, Obj) and it.name == "iterator" and isinstance(k, int):
+                out = it.attrs["seq"][it.attrs["pos"]:it.attrs["pos"] + k]
+                it.attrs["pos"] += len(out)
+                return out
             if isinstance(it, Obj) and it.name == "itertools.count" and isinstance(k, int):
                 out = list(range(it.attrs["pos"], it.attrs["pos"] + k))
                 it.attrs["pos"] += k
@@ -354,6 +363,13 @@ class Sim(Layout):
             if isinstance(it, Obj) and it.name == "itertools.count":
                 it.attrs["pos"] += 1
                 return it.attrs["pos"] - 1
+            if isinstance(it, Obj) and it.name == "iterator":
+                if it.attrs["pos"] < len(it.attrs["seq"]):
+                    it.attrs["pos"] += 1
+                    return it.attrs["seq"][it.attrs["pos"] - 1]
+                if len(n.args) == 2:
+                    return self.ev(n.args[1], env, fi)
+                raise LayoutUnknown("next() of an exhausted iterator")
             if isinstance(it, (list, tuple)):
                 if it:
                     return it[0]
@@ -416,6 +432,13 @@ class Sim(Layout):
                 o.extend(list(v) if isinstance(v, (list, tuple, range)) else (list(v.keys()) if isinstance(v, dict) else self.iterable(v, n)))
                 return None
         return Layout._e_Call(self, n, env, fi)
+
+    def iterable(self, v, st):
+        if isinstance(v, Obj) and v.name == "iterator":
+            out = v.attrs["seq"][v.attrs["pos"]:]
+            v.attrs["pos"] = len(v.attrs["seq"])
+            return out
+        return Layout.iterable(self, v, st)
 
     def _e_GeneratorExp(self, n, env, fi):
         return self._e_ListComp(n, env, fi)
